@@ -118,6 +118,7 @@ type Run struct {
 	expectMake  map[string]bool
 	cuts        []string
 
+	randPinned int64
 	bgCtx     *ctxObj
 	ctxSeq    int
 	ctxs      []*ctxObj
@@ -147,6 +148,7 @@ func (e *Engine) newRun(harness string, prefix []Decision) *Run {
 		expectMake: map[string]bool{}, makeLimit: map[string]int64{},
 		fnHit:      map[*ssa.Function]int{}, intrHit: map[string]int{},
 	}
+	r.randPinned = -1
 	r.model = map[string]uint64{} // the empty pc is satisfied by any model
 	return r
 }
